@@ -404,10 +404,15 @@ func bandFor(h uint32, l *Ledger, spr uint64) float64 {
 }
 
 func (l *Ledger) zeroAddress(res *BlockResult, a factom.FAAddress) {
+	n := 0
 	for t := 1; t <= world.NumTickers; t++ {
 		if v := l.bal(a, t); v.Sign() > 0 {
 			l.add(res, a, t, neg(v), COneTime, "")
+			n++
 		}
+	}
+	if n > 0 {
+		res.Probes = append(res.Probes, fmt.Sprintf("one_time_zeroing_of_an_address_holding_%d_asset(s)", n))
 	}
 }
 
